@@ -322,14 +322,16 @@ func registerTimeRand(p *Program) {
 	I["time.runtimeNano"] = func(in *Interp, fr *frame, a []Value) Value { return in.intConst(1) }
 	I["time.Now"] = func(in *Interp, fr *frame, a []Value) Value {
 		sec := in.env.clockNow()
-		return in.timeFromUnix(sec)
+		v := in.timeFromUnix(sec).(StructV)
+		v[0] = in.env.nowNs // wall without the monotonic flag: just the nanoseconds (< 2^30)
+		return v
 	}
 	I["time.Since"] = func(in *Interp, fr *frame, a []Value) Value {
 		now := in.env.clockNow()
-		return in.durationBetween(now, in.unixOfTime(a[0]))
+		return in.durationBetween(now, in.env.nowNs, in.unixOfTime(a[0]), in.nsOfTime(a[0]))
 	}
 	I["(time.Time).Sub"] = func(in *Interp, fr *frame, a []Value) Value {
-		return in.durationBetween(in.unixOfTime(a[0]), in.unixOfTime(a[1]))
+		return in.durationBetween(in.unixOfTime(a[0]), in.nsOfTime(a[0]), in.unixOfTime(a[1]), in.nsOfTime(a[1]))
 	}
 	I["time.Time.Sub"] = I["(time.Time).Sub"]
 	I["time.Sleep"] = func(in *Interp, fr *frame, a []Value) Value {
@@ -373,15 +375,47 @@ func (e *envState) clockNow() *Term {
 		in.assume(ts.Ule(x, ts.Const(64, 3000)))
 		in.ts.Ranges[x.ID] = [2]uint64{0, 3000}
 		e.now = ts.Add(x, ts.Const(64, 1700000000))
+		e.nowNs = e.freshNs()
+		e.noteClock()
 		return e.now
 	}
 	// consecutive readings may be up to 1 s apart
 	d := in.fresh("tick", BV(64))
+	in.model[d.ID] = 0
+	e.ticks = append(e.ticks, d)
 	delete(in.ts.Ranges, d.ID)
 	in.assume(ts.Ule(d, ts.Const(64, 1)))
 	in.ts.Ranges[d.ID] = [2]uint64{0, 1}
 	e.now = ts.Add(e.now, d)
+	// nanoseconds within the second: arbitrary, but time does not run backwards within one second
+	ns := e.freshNs()
+	in.assume(ts.Implies(ts.Eq(d, ts.Const(64, 0)), ts.Ule(e.nowNs, ns)))
+	e.nowNs = ns
+	e.noteClock()
 	return e.now
+}
+
+func (e *envState) noteClock() {
+	if e.clockSecs == nil {
+		e.clockSecs = map[int]bool{}
+	}
+	e.clockSecs[e.now.ID] = true
+}
+
+// freshNs: the sub-second part of a clock reading, 0..999999999 (a 30-bit variable, zero-extended).
+func (e *envState) freshNs() *Term {
+	in := e.in
+	ts := in.ts
+	v := in.fresh("clockns", BV(30))
+	in.model[v.ID] = 0
+	in.nondet = append(in.nondet, NondetVar{"clockns", "clock", []*Term{v}})
+	in.assume(ts.Ule(v, ts.Const(30, 999999999)))
+	t := ts.Zext(v, 64)
+	if e.nsTerms == nil {
+		e.nsTerms = map[int]bool{}
+	}
+	e.nsTerms[t.ID] = true
+	return t
 }
 
 func (e *envState) advance(secs *Term) {
@@ -389,6 +423,24 @@ func (e *envState) advance(secs *Term) {
 		e.clockNow()
 	}
 	e.now = e.in.ts.Add(e.now, secs)
+	if secs.IsConst() && secs.Val < 1<<32 {
+		e.noteClock()
+	}
+}
+
+// nsOfTime: the nanosecond part of a time value without monotonic reading.
+func (in *Interp) nsOfTime(v Value) *Term {
+	wall := v.(StructV)[0].(*Term)
+	if wall.IsConst() {
+		if wall.Val>>63 != 0 {
+			panic(engineErr("time value with monotonic reading in Sub/Since"))
+		}
+		return in.ts.Const(64, wall.Val&(1<<30-1))
+	}
+	if in.env.nsTerms[wall.ID] {
+		return wall
+	}
+	panic(engineErr("time value with an unmodelled wall field"))
 }
 
 const unixToInternal = (1969*365 + 1969/4 - 1969/100 + 1969/400) * 86400
@@ -408,24 +460,37 @@ func (in *Interp) timeFromUnix(sec *Term) Value {
 func (in *Interp) unixOfTime(v Value) *Term {
 	t := v.(StructV)
 	wall := t[0].(*Term)
-	if !wall.IsConst() || wall.Val>>63 != 0 {
+	if wall.IsConst() && wall.Val>>63 != 0 || !wall.IsConst() && !in.env.nsTerms[wall.ID] {
 		panic(engineErr("time value with monotonic reading in Sub/Since"))
 	}
 	return in.ts.Sub(t[1].(*Term), in.ts.Const(64, uint64(unixToInternal)))
 }
 
-// durationBetween returns (a-b) seconds as a time.Duration, saturating like Go.
-func (in *Interp) durationBetween(a, b *Term) Value {
+// durationBetween returns (a-b) as a time.Duration (saturating like Go) for instants given as
+// seconds and nanoseconds. The product with 1e9 is never handed to the solver: comparisons of the
+// result go through its (seconds, nanoseconds) decomposition (cmpScaled).
+func (in *Interp) durationBetween(as, an, bs, bn *Term) Value {
 	ts := in.ts
-	diff := ts.Sub(a, b)
-	const lim = 9223372036 // |diff| beyond this saturates
-	if in.Branch(ts.Slt(ts.Const(64, lim), diff)) {
-		return ts.Const(64, uint64(1<<63-1))
+	diff := ts.Sub(as, bs)
+	const lim = 9223372035 // |diff| beyond this saturates
+	if !(in.env.clockSecs[as.ID] && in.env.clockSecs[bs.ID]) { // two clock readings are never that far apart
+		if in.Branch(ts.Slt(ts.Const(64, lim), diff)) {
+			return ts.Const(64, uint64(1<<63-1))
+		}
+		if in.Branch(ts.Slt(diff, ts.Neg(ts.Const(64, lim)))) {
+			return ts.Const(64, 1<<63)
+		}
 	}
-	if in.Branch(ts.Slt(diff, ts.Neg(ts.Const(64, lim)))) {
-		return ts.Const(64, 1<<63)
+	var nn *Term = ts.Const(64, 0)
+	if !(an.IsConst() && bn.IsConst() && an.Val == bn.Val) {
+		// normalise to 0 <= nn < 1e9 by borrowing a second
+		borrow := ts.Ult(an, bn)
+		dn := ts.Sub(an, bn)
+		nn = ts.Ite(borrow, ts.Add(dn, ts.Const(64, 1000000000)), dn)
+		diff = ts.Ite(borrow, ts.Sub(diff, ts.Const(64, 1)), diff)
 	}
-	d := ts.Mul(diff, ts.Const(64, 1000000000))
+	d := ts.Add(ts.Mul(diff, ts.Const(64, 1000000000)), nn)
 	in.secScaled[d.ID] = diff
+	in.nsScaled[d.ID] = nn
 	return d
 }
